@@ -211,10 +211,14 @@ class MultipartDecoder:
 
         elif self.state == State.DATA_START:
             data, del_index, more_data = self._parse_data(self.buffer, start=True)
-            del self.buffer[:del_index]
-            event = Data(data=data, more_data=more_data)
-            if more_data:
-                self.state = State.DATA
+
+            # Nothing is consumed while the leading line break may still turn
+            # out to be the start of the delimiter of an empty part.
+            if del_index > 0:
+                del self.buffer[:del_index]
+                event = Data(data=data, more_data=more_data)
+                if more_data:
+                    self.state = State.DATA
 
         elif self.state == State.DATA:
             data, del_index, more_data = self._parse_data(self.buffer, start=False)
@@ -260,7 +264,7 @@ class MultipartDecoder:
             # a partial boundary at the end. As the boundary
             # starts with either a nl or cr find the earliest and
             # return up to that as data.
-            data_end = del_index = self.last_newline(data[data_start:]) + data_start
+            data_end = del_index = self.last_newline(data)
             # If amount of data after last newline is far from
             # possible length of partial boundary, we should
             # assume that there is no partial boundary in the buffer
@@ -278,7 +282,7 @@ class MultipartDecoder:
                 data_end = match.start()
                 del_index = match.end()
             else:
-                data_end = del_index = self.last_newline(data[data_start:]) + data_start
+                data_end = del_index = self.last_newline(data)
             more_data = match is None
 
         return bytes(data[data_start:data_end]), del_index, more_data
